@@ -23,7 +23,7 @@ RULE = ("Hypothesis caption scripts (vt/gen_scc.py) from the three channel-1 pro
         "code, parity set/cleared/mixed, several SCC lines at DF/NDF time codes with gaps, upper/lower-case hex x text_align "
         "auto/left/center/right; labelled classes: undoubled control codes, rows sent out of order, roll-up base row other than 15, "
         "CR without PAC, padding inside a displayed row, paint-on captions accumulating on blank rows, back-to-back mid-row codes, "
-        "pop-on load over leftover non-displayed memory (text unasserted), mode switches after EDM. One evaluation = one stream, "
+        "pop-on load over leftover non-displayed memory (asserted when the older caption sits on other rows, unasserted when rows may be shared), mode switches after EDM. One evaluation = one stream, "
         "compared with the reference decoder at the first/last/middle (+-1) frame of every interval between transition windows and on "
         "every paragraph begin/end; non-trivial = >= 2 captions, >= 2 rows in one of them and >= 1 attribute change; distinct by case hash.")
 ASSUMPTIONS = [
@@ -357,7 +357,7 @@ PARTS = {
   "mixed": Part("mixed", check, strategy=cases(P_MIXED), n=(800, 80000), shrinker=SHRINK, required_labels=("mode-switch",)),
   "classes": Part("classes", check, strategy=cases(P_CLASSES), n=(1200, 120000), shrinker=SHRINK,
                   required_labels=("undoubled-control", "roll:base-row-not-15", "pad-inside-displayed-row", "paint:accumulates-without-EDM",
-                                   "mid-row-run", "pop:load-over-leftover", "mode-switch")),
+                                   "mid-row-run", "pop:load-over-leftover", "pop:load-over-leftover:other-rows", "mode-switch")),
   "c1": Part("c1", check, strategy=cases(P_C1), n=(320, 16000), shrinker=SHRINK,
              required_labels=("paint:caption-below-earlier-paint-on-caption",)),
   "c2": Part("c2", check, strategy=cases(P_C2), n=(320, 16000), shrinker=SHRINK),
